@@ -17,7 +17,7 @@ typedef struct {
 	gf2_sys_t *sys;           /* parity-check equations over ESIs (staircase form derived from g) */
 } block_t;
 
-enum { PAY_RANDOM = 0, PAY_IDENTITY = 1, PAY_SPARSE = 2 };
+enum { PAY_RANDOM = 0, PAY_IDENTITY = 1, PAY_SPARSE = 2, PAY_BYTEUNIT = 3 /* source i = the i-th unit vector over bytes: repair j then spells out row j of the generator */ };
 /* Encoder session through the public API. nullslot_mask: bit (esi & 63) set => pass a NULL output slot.
  * Returns 0 ok, 1 configuration rejected by the library, <0 encoder misbehaved (already reported under `prop`). */
 int  block_build(block_t *b, const cfg_t *c, int payload, rng_t *rng, uint64_t nullslot_mask, int early_release_after);
